@@ -157,6 +157,8 @@ def main(tier, seed, replay=None):
                     foci.add(tr[0]); foci.add(tr[2])
                 for sh in c["shapes"]:
                     foci.update(sh["targets"]["nodes"])
+                foci.update(c.get("nodes", []))   # also nodes that occur in no triple (explicit focus_nodes may name them)
+                foci.update(c.get("lits", []))
                 ctx = {"data": c["data"], "foci": sorted(foci, key=lambda t: t.n3())}
             if c["opts"].get("abort_on_first"):
                 continue  # the aborted report depends on iteration order; its structure is checked above
@@ -164,6 +166,22 @@ def main(tier, seed, replay=None):
                 S.opts_to_coq(I, c["opts"]), I.graph(S.class_triples(sgx)), I.graph(c["data"]),
                 S.env_to_coq(I, c["shapes"], ctx=ctx), enc.coq_bool(conforms), "; ".join("%d%%nat" % h for h in hist)))
             idx.append(i)
+            # row level: every result node (at any sh:detail depth) with its focus, value, source shape, component, severity
+            rows = []
+            for rn in set(rg.subjects(RDF.type, SH.ValidationResult)):
+                try:
+                    vals = list(rg.objects(rn, SH.value))
+                    rows.append("(%s, %s, %s, %d%%N, %s)" % (I.term(next(rg.objects(rn, SH.focusNode))), enc.coq_opt(I.term(vals[0])) if vals else "None",
+                                I.term(next(rg.objects(rn, SH.sourceShape))), I.iri_num(next(rg.objects(rn, SH.sourceConstraintComponent))),
+                                I.term(next(rg.objects(rn, SH.resultSeverity)))))
+                except StopIteration:
+                    rows = None
+                    break
+            if rows is not None:
+                bodies.append("check_report_rows empty_world (%s) (%s) (%s) (%s) [%s]" % (
+                    S.opts_to_coq(I, c["opts"]), I.graph(S.class_triples(sgx)), I.graph(c["data"]),
+                    S.env_to_coq(I, c["shapes"], ctx=ctx), "; ".join(rows)))
+                idx.append(i)
     failed, errors = F.coq_eval("c06", EC.PREAMBLE, bodies, shard=100) if ob.ok else ([], ["coq build broken"])
     seen = set()
     for i, msg in complaints[:10]:
@@ -174,7 +192,7 @@ def main(tier, seed, replay=None):
                        "data_nt": sorted(" ".join(t.n3() for t in tr) for tr in cases[i]["data"])})
     for k in failed[:10]:
         i = idx[k]
-        rep.violation({"what": "the report graph's triple counts per predicate differ from the model's report_graph (Props.C06)",
+        rep.violation({"what": "the report graph differs from the model's report_graph (Props.C06): triple counts per predicate, or the rows (focus, value, source shape, component, severity) of its result nodes",
                        "options": cases[i]["opts"], "shapes_ttl": cases[i]["sg"].serialize(format="turtle"),
                        "data_nt": sorted(" ".join(t.n3() for t in tr) for tr in cases[i]["data"])})
     if (not ob.ok or errors) and not rep.violations:
@@ -182,7 +200,7 @@ def main(tier, seed, replay=None):
     cov = F.proof_coverage(ob)
     cov.update({
         "evaluations": len(cases), "distinct_nontrivial": stats["nonconforming"],
-        "rule": "case = shapes/data from the evaluator-level generators (nested shapes, templates for qualified siblings, severity mixes, SPARQL components) x 10 option settings (abort_on_first, allow_infos, allow_warnings, advanced, sparql_mode, inference rdfs/owlrl, Dataset input); on every real report: one report node, sh:conforms = verdict = text, text count = #sh:result, verdict <-> all top-level severities waived, every (nested) result well-formed, terms denote terms of the validated graphs, blank-node terms come with their description; non-trivial = non-conforming; for the modes the model covers the per-predicate triple counts are compared with the model's report_graph",
+        "rule": "case = shapes/data from the evaluator-level generators (nested shapes, templates for qualified siblings, severity mixes, SPARQL components) x 10 option settings (abort_on_first, allow_infos, allow_warnings, advanced, sparql_mode, inference rdfs/owlrl, Dataset input); on every real report: one report node, sh:conforms = verdict = text, text count = #sh:result, verdict <-> all top-level severities waived, every (nested) result well-formed, terms denote terms of the validated graphs, blank-node terms come with their description; non-trivial = non-conforming; for the modes the model covers the per-predicate triple counts and the multiset of result rows (focus, value, source shape, component, severity at every sh:detail depth) are compared with the model's report_graph",
         "distribution": dict(stats, histogram_cases=len(bodies), model_disagreements=len(failed), structural_complaints=len(complaints)),
         "samples": [{"options": cases[i]["opts"], "shapes_ttl": cases[i]["sg"].serialize(format="turtle")[:1500]} for i in (0, len(cases) // 2)],
     })
